@@ -2,6 +2,7 @@ import LeptosModel.Proofs.HydrateState
 import LeptosModel.Proofs.HydrateLoad
 import LeptosModel.Proofs.HydrateInitial
 import LeptosModel.Proofs.HydrateSettle
+import LeptosModel.Proofs.HydrateFinal
 /-!
 # C05 — hydration adopts server-rendered HTML without mismatch
 
@@ -21,9 +22,12 @@ optional attributes, tuples nested arbitrarily (= fragments), `Option`, `Either`
 | `C05_state_eq_build_state_mod_ids`     | proved (every DOM, every cursor: *if* the walk succeeds)              |
 | `C05_walk_commutes_with_writes`        | proved (the `set_text` of the repaired `hydrate` does not disturb the walk)  |
 | `C05_initial_dom_like_csr`             | proved (all `wfV` views with plain attributes, `""` included: DOM after hydration = client-built DOM, comments aside); `…_partial` = the same about the DOM before the write, `C05_initial_dom_old_witness` |
-| `C05_then_like_csr_stmt`               | OPEN, no exclusion (statement only; exercised by the correspondence run on every case; instances below by `decide`) |
+| `C05_then_like_csr`                    | **proved**: hydrated-then-rebuilt = client-built-then-rebuilt, comments aside, for all pairs of one view type over the structural grammar (strings incl. `""`, `()`, elements, tuples, `Option`, `Either`, `Vec`, `AnyView`), static string attributes, `a` without child-less non-void elements |
+| `C05_then_like_csr_stmt`               | OPEN: the same with `Option<String>` / `bool` attributes and child-less elements (statement only; exercised by the correspondence run on every case) |
 | `C05_empty_text_witness`, `…_mid`, `C05_then_like_csr_old_false` | regression witnesses of F-C05-1 (repaired: `fix: hydrating an empty string …`) |
 | `C05_fragment_parent_witness`          | regression witness of F-C05-3 (repaired: `fix: an empty StaticVec hydrated as the first child …`) |
+| `C05_keyed_position_witness`, `C05_result_err_position_witness` | regression witnesses of F-C05-4 / F-C05-5 (repaired: keyed list / `Result::Err` SSR position) |
+| `C05_inert_walk`, `C05_inert_walk_error` | proved: `InertElement::hydrate` moves cursor and position exactly like the element it was rendered from |
 | `C05_raw_text_child_witness`           | F-C05-2, outside the `wfV` grammar: a hydrated `<textarea>`/`<style>`/`<script>`/`<noscript>` keeps no child state |
 
 Streamed forms (remark, not a theorem of this file): for a view without asynchronous parts the
@@ -146,11 +150,36 @@ def Comparable (a b : View) : Prop :=
   (∃ ty, HasTy a ty ∧ HasTy b ty) ∧ wfV [[]] a = true ∧ wfV [[]] b = true ∧
     plainV a = true ∧ plainV b = true
 
-/-- **then like CSR** — OPEN (stated, not proved; no exclusion any more since the repair of
-F-C05-1): SSR of `a`, parsed, hydrated with `a`, then rebuilt with any `b` of the same type shows the
-same elements, attributes and text (comments aside) as `a` built on the client and rebuilt with `b`.
-The correspondence run evaluates it on every generated pair (model and real code); the instances
-below are kernel-evaluated. -/
+/-- **then like CSR**: for two values `a`, `b` of one view type — all structural combinators: strings incl.
+the empty string, `()`, elements, tuples nested arbitrarily, `Option`, `Either`/`EitherOf<n>` incl. branch
+switches, `Vec` (grow, shrink, fill, clear), `AnyView` incl. a change of the erased type; static string
+attributes with distinct names (`staticV`: the attribute fragment for which C03 proves `rebuild`); every
+non-void element of `a` has children (`fullV`) — the SSR string of `a`, parsed, loaded, hydrated with `a`
+and then rebuilt with `b` shows, comments aside, exactly what `a` built and mounted on the client and
+rebuilt with `b` shows; hydration created no node.
+
+Proof (Proofs/Hydrate{Erase,EraseView,EraseRebuild,Rep,RepE,Then,Final}.lean): the hydrated DOM differs
+from a client-built one by the `<!>` separators in front of strings that follow strings — comments no
+state refers to.  (1) Erasing a set of such inert comments commutes with every DOM primitive and hence
+with `mount`, `unmount`, `insert_before_this`, `mount_before`, `build` and `rebuild` (`erase_rebuild`).
+(2) The hydrated world after the writes of `settle`, with the separators erased, is a mounted
+representation of `a` in the sense of C03 (`hyd_rep`: `Rep`; `Inv`).  (3) C03's `rebuild_spec` then gives
+`render b` on the erased side, and `build_mount_spec` + `rebuild_spec` give `render b` for the
+client-built twin.  (4) Serialising a DOM and the same DOM with inert comments erased agree once
+comments are stripped (`serList_erase`), and the fuel of `serializeKids` suffices (`depth_le_owned`,
+`nodup_bounded`). -/
+theorem C05_then_like_csr (a b : View) (ty : Ty) (hta : HasTy a ty) (htb : HasTy b ty)
+    (hwa : wfV [[]] a = true) (hwb : wfV [[]] b = true) (hsa : staticV a = true) (hsb : staticV b = true)
+    (hfa : fullV a = true) : likeCsr (domOf a) a b = true := by
+  obtain ⟨k1, h1, hstrip⟩ := hydrated_side a b ty hta htb hwa (wfH_of_wfV b _ hwb) (staticV_allEl a hsa)
+    (staticV_allEl b hsb) hfa
+  have h2 := csr_side a b ty hta htb (staticV_allEl a hsa) (staticV_allEl b hsb) (wfH_of_wfV b _ hwb)
+  simp [likeCsr, likeCsrOf, h1, h2, hstrip, treesBeq_refl]
+
+/-- what is still **OPEN** (stated, not proved): the same for `String` / `Option<String>` / `bool` attributes
+(C03 proves `rebuild` for static strings only) and for non-void elements without children (hydrated with
+`children: None`, client-built with a placeholder child).  The correspondence run evaluates it on every
+generated pair (model and real code); the instances below are kernel-evaluated. -/
 def C05_then_like_csr_stmt : Prop :=
   ∀ a b : View, Comparable a b → likeCsr (domOf a) a b = true
 
@@ -228,6 +257,63 @@ theorem C05_fragment_parent_witness :
         (fun ts => fragLikeCsr true ts "div" [tail] [] [x] []) = some true := by
   refine ⟨by decide +kernel, by decide +kernel, by decide +kernel⟩
 
+/-- **F-C05-4 (repaired)** (kernel-evaluated): a keyed list rendered its items with `NextChild` forced after
+each and did not update the position after its trailing `<!>`.  (1) `("a", keyed([]), "b")` rendered
+`a<!><!>b`: hydration finds a comment where it expects the string `b`.  (2) string items rendered `ab<!>`:
+one merged text node, hydration of the second item fails.  With the repair the keyed list is rendered
+exactly like a `Vec` and both hydrate. -/
+theorem C05_keyed_position_witness :
+    let a : View := .text "a"
+    let b : View := .text "b"
+    -- (1) empty list between strings
+    (html true a .firstChild ++ (htmlKeyedOld [] .nextChildAfterText).1 ++
+        html true b (htmlKeyedOld [] .nextChildAfterText).2 = "a<!><!>b".toList ∧
+      hydratesOn "a<!><!>b".toList (.tuple [a, .vec [], b]) = false ∧
+      toHtml (.tuple [a, .vec [], b]) = "a<!>b".toList ∧
+      hydratesOn "a<!>b".toList (.tuple [a, .vec [], b]) = true) ∧
+    -- (2) string items
+    ((htmlKeyedOld [a, b] .firstChild).1 = "ab<!>".toList ∧
+      hydratesOn "ab<!>".toList (.vec [a, b]) = false ∧
+      toHtml (.vec [a, b]) = "a<!>b<!>".toList ∧
+      hydratesOn "a<!>b<!>".toList (.vec [a, b]) = true) := by
+  refine ⟨⟨by decide +kernel, by decide +kernel, by decide +kernel, by decide +kernel⟩,
+    ⟨by decide +kernel, by decide +kernel, by decide +kernel, by decide +kernel⟩⟩
+
+/-- **F-C05-5 (repaired)** (kernel-evaluated): `Result::Err` rendered its `<!>` without updating the
+position: `("a", Err, "b")` rendered `a<!><!>b`, which does not hydrate; now `a<!>b` like `Option::None`. -/
+theorem C05_result_err_position_witness :
+    let a : View := .text "a"
+    let b : View := .text "b"
+    html true a .firstChild ++ (htmlErrOld .nextChildAfterText).1 ++ html true b (htmlErrOld .nextChildAfterText).2 =
+        "a<!><!>b".toList ∧
+      hydratesOn "a<!><!>b".toList (.tuple [a, .onone, b]) = false ∧
+      toHtml (.tuple [a, .onone, b]) = "a<!>b".toList ∧
+      hydratesOn "a<!>b".toList (.tuple [a, .onone, b]) = true := by
+  refine ⟨by decide +kernel, by decide +kernel, by decide +kernel, by decide +kernel⟩
+
+/-- **InertElement**: its `hydrate` makes the step and the cast of an element and leaves the children
+alone; cursor, position and outcome are those of hydrating the element it was rendered from — on every
+DOM, from every cursor (so an `InertElement` can stand wherever that element can: first, middle, last or
+only child). -/
+theorem C05_inert_walk (d : Dom) (c : Cur) (tag : String) (as : List AttrVal) (ch : View) (o : Out)
+    (h : hydrate d (.elem tag as ch) c = .ok o) :
+    ∃ o', hydrateInert d c = .ok o' ∧ o'.cur = o.cur ∧ o'.created = 0 := by
+  simp only [hydrate] at h
+  by_cases hel : d.isElement (elemTarget d c) = true
+  · simp only [hel, if_true] at h
+    refine ⟨⟨.elem (elemTarget d c) [] none, ⟨elemTarget d c, .nextChild⟩, 0⟩, by simp [hydrateInert, hel], ?_, rfl⟩
+    split at h
+    · cases h; rfl
+    · split at h
+      · cases h; rfl
+      · cases h
+  · simp [hel] at h
+
+/-- … and where hydrating the element fails at its own cast, so does the `InertElement` -/
+theorem C05_inert_walk_error (d : Dom) (c : Cur) (h : d.isElement (elemTarget d c) = false) :
+    hydrateInert d c = .error (.element "" (elemTarget d c)) := by
+  simp [hydrateInert, h]
+
 /-! ## non-vacuity: the hypotheses are satisfiable and the conclusions bite
 
 (closed terms evaluated by the kernel: `decide +kernel` — no axiom beyond the kernel's reduction) -/
@@ -242,6 +328,13 @@ example : loadOK (domOf (exAdj "World")) = true := by decide +kernel
 example : Comparable (exAdj "World") (exAdj "Bob") :=
   ⟨⟨.elem "p" [] (.tuple [.text, .text, .text]), by decide +kernel, by decide +kernel⟩, by decide +kernel, by decide +kernel, by decide +kernel, by decide +kernel⟩
 example : likeCsr (domOf (exAdj "World")) (exAdj "World") (exAdj "Bob") = true := by decide +kernel
+/-- the hypotheses of `C05_then_like_csr` are satisfiable (and its conclusion is the line above) -/
+example : staticV (exAdj "World") = true ∧ fullV (exAdj "World") = true ∧ staticV (exAdj "Bob") = true := by
+  decide +kernel
+example : likeCsr (domOf (exAdj "World")) (exAdj "World") (exAdj "Bob") = true :=
+  C05_then_like_csr (exAdj "World") (exAdj "Bob") (.elem "p" [] (.tuple [.text, .text, .text]))
+    (by decide +kernel) (by decide +kernel) (by decide +kernel) (by decide +kernel) (by decide +kernel)
+    (by decide +kernel) (by decide +kernel)
 
 /-- the empty string: rendered as `" "`, adopted and reset to `""` -/
 example : wfV [[]] (.text "") = true := by decide +kernel
